@@ -86,8 +86,8 @@ def h1(prog, rep):
             rep.check(ok, "H1-notify", "%s in %s" % (e.text[:50], f.name), e.where,
                       "a slot write must be followed by setreccookie(cookie, *slot, same index), skipped only when no notifier is registered",
                       function=f.name, construct="slot-write:" + show(s[1]))
-    if nst < 4:
-        rep.defer_broken("H1: fewer than 4 heap slot writes in ptrheap.c")
+    if nst < 2:
+        rep.defer_broken("H1: fewer than 2 heap slot writes in ptrheap.c")
     # bulk constructor: the notification loop covers [0, N)
     cr = u.func("ptrheap_create")
     nl = [c for c in cr.calls() if is_notifier(c)]
@@ -223,14 +223,57 @@ def h4(prog, rep):
     stop = any(op == "==" and show(L) == "min" and R == i2 for b in dn.blocks.values() if b.cond is not None for op, L, R, _, _ in cond_atoms(b.cond, True))
     ok = len(sws) == 1 and {show(norm(sws[0].arg(1))), show(norm(sws[0].arg(2)))} == {"min", "i"} and len(mn) == 1 and len(st) == 1 and stop and dn.dominates(sws[0], mn[0])
     rep.check(ok, "H4-sift", "heapify: start from i, stop when i is the minimum, else swap and descend to the chosen child", dn.loc, "", function="heapify", construct="siftdown")
-    # swap really exchanges the two slots through a temporary
+    # swap really exchanges the two slots, and tells each element its new position: the function is evaluated with the two
+    # slots as abstract cells (initial contents a and b), pointers to the slots held in locals are followed
     ii = ("v", "i", sw.params[1]["id"])
     jj = ("v", "j", sw.params[2]["id"])
-    asg = [(norm(e.kid(0)), norm(e.kid(1))) for e in sorted([e for e in sw.all_elems() if e.is_assign and e.op == "="], key=lambda e: (e.line, e.i))]
-    ok = len(asg) == 3 and asg[0][0][0] == "v" and slot(asg[0][1]) is not None and slot(asg[0][1])[1] == ii and \
-        slot(asg[1][0]) is not None and slot(asg[1][0])[1] == ii and slot(asg[1][1]) is not None and slot(asg[1][1])[1] == jj and \
-        slot(asg[2][0]) is not None and slot(asg[2][0])[1] == jj and asg[2][1] == asg[0][0]
-    rep.check(ok, "H4-sift", "swap exchanges slots i and j", sw.loc, "", function="swap", construct="swap")
+    cells = {ii: "a", jj: "b"}
+    env = {}
+    notes = []
+    okev = True
+
+    def cell_of(t):
+        """index term k if t designates slot k: *ptrlist_get(elems, k), or *p with p holding that slot's address"""
+        s_ = slot(t)
+        if s_ is not None:
+            return s_[1]
+        if t[0] == "*" and t[1] in env and isinstance(env[t[1]], tuple) and env[t[1]][0] == "addr":
+            return env[t[1]][1]
+        return None
+
+    def val(t):
+        k = cell_of(t)
+        if k is not None:
+            return cells.get(k)
+        if t in env:
+            return env[t]
+        if t[0] == "call" and t[1] == "ptrlist_get" and len(t) >= 4:
+            return ("addr", t[3])
+        return None
+    for bid in sw.rpo():
+        for e in sw.blocks[bid].elems:
+            if e.cls == "DeclStmt":
+                for d in e.decls or []:
+                    if isinstance(d, dict) and d.get("init"):
+                        env[("v", d["name"], d["id"])] = val(norm(sw.elem(d["init"])))
+            elif e.is_assign and e.op == "=":
+                lhs, v = norm(e.kid(0)), val(norm(e.kid(1)))
+                k = cell_of(lhs)
+                if k is not None:
+                    cells[k] = v
+                elif lhs[0] == "v":
+                    env[lhs] = v
+                else:
+                    okev = False
+            elif e.cls == "CallExpr" and e.callee is None and len(e.args) == 3:
+                notes.append((val(norm(e.arg(1))), norm(e.arg(2))))
+    ok = okev and cells.get(ii) == "b" and cells.get(jj) == "a"
+    rep.check(ok, "H4-sift", "swap exchanges slots i and j", sw.loc, "after the function slot i holds %s and slot j holds %s (a, b: what they held before)" % (cells.get(ii), cells.get(jj)),
+              function="swap", construct="swap")
+    okn = sorted(notes, key=str) == sorted([("b", ii), ("a", jj)], key=str)
+    rep.check(okn, "H1-notify", "swap tells each of the two elements the slot it is now in", sw.loc,
+              "notifications (element, position): %s; expected the element now in slot i with i and the one now in slot j with j" % [(v, show(p)) for v, p in notes],
+              function="swap", construct="swap-notify")
 
 
 def h6_build(prog, rep):
